@@ -88,10 +88,9 @@ class RegisterStack:
 
         index = reg.index.data
         pool_key = reg.register_pool_key()
-        if (
-            index in self.reserved_registers[pool_key]
-            or index not in self.allocatable_registers[pool_key]
-        ) and 0 <= index:
+        if index in self.reserved_registers[pool_key] or (
+            0 <= index and index not in self.allocatable_registers[pool_key]
+        ):
             return
 
         available = self.available_registers[pool_key]
@@ -174,6 +173,11 @@ class RegisterStack:
         assert isinstance(reg.index, IntAttr)
         index = reg.index.data
         pool_key = reg.register_pool_key()
+        if index < 0:
+            # An "infinite" register already in use: never hand it out, fresh ones start above it.
+            self.reserved_registers[pool_key][index] += 1
+            next_index = self.next_infinite_indices[pool_key]
+            self.next_infinite_indices[pool_key] = max(next_index, ~index + 1)
         available_registers = self.available_registers[pool_key]
         allocatable_registers = self.allocatable_registers[pool_key]
         if index in available_registers:
